@@ -237,7 +237,7 @@ fn c08_q_expiry_fires_iff_timeout_elapsed() {
 #[cfg_attr(kani, kani::stub(embassy_time::Instant::now, crate::verif_support::stub_instant_now))]
 #[cfg_attr(not(kani), test)]
 fn c07_q_failsafe_rollback_leaves_no_session_on_dropped_fabric() {
-    rollback_scene(false);
+    rollback_scene(false, NocFlags::ADD_ROOT_CERT_RECVD | NocFlags::ADD_CSR_REQ_RECVD | NocFlags::ADD_NOC_RECVD);
 }
 
 /// ... the same with the trigger arriving over the (promoted) PASE session, which is kept -
@@ -247,10 +247,23 @@ fn c07_q_failsafe_rollback_leaves_no_session_on_dropped_fabric() {
 #[cfg_attr(kani, kani::stub(embassy_time::Instant::now, crate::verif_support::stub_instant_now))]
 #[cfg_attr(not(kani), test)]
 fn c07_q_failsafe_rollback_keeping_the_answering_session() {
-    rollback_scene(true);
+    rollback_scene(true, NocFlags::ADD_ROOT_CERT_RECVD | NocFlags::ADD_CSR_REQ_RECVD | NocFlags::ADD_NOC_RECVD);
 }
 
-fn rollback_scene(keep_pase: bool) {
+/// C08: what expiry undoes does not depend on which credential commands were received in the
+/// context. The in-memory fabric the fail-safe is bound to is replaced by its persisted copy -
+/// here: none, so it must be gone - for EVERY flag set (a fail-safe armed over a CASE session of
+/// an existing fabric carries no NOC flag at all, yet ACL / group writes made under it are only
+/// in memory and rely on this reload to be undone).
+#[cfg_attr(kani, kani::proof)]
+#[cfg_attr(kani, kani::unwind(4))]
+#[cfg_attr(kani, kani::stub(embassy_time::Instant::now, crate::verif_support::stub_instant_now))]
+#[cfg_attr(not(kani), test)]
+fn c08_q_expiry_reloads_the_bound_fabric_for_every_flag_set() {
+    rollback_scene(false, NocFlags::from_bits_truncate(any_u8()));
+}
+
+fn rollback_scene(keep_pase: bool, flags: NocFlags) {
     let mut fabrics = Fabrics::new();
     vok!(fabrics.add_with_post_init(|_| Ok(())), "add-fabric");
     let mut sessions = crate::transport::session::Sessions::new();
@@ -270,7 +283,7 @@ fn rollback_scene(keep_pase: bool) {
         armed_at: Instant::from_ticks(0),
         timeout_secs: 60,
         fab_idx: 1,
-        flags: NocFlags::ADD_ROOT_CERT_RECVD | NocFlags::ADD_CSR_REQ_RECVD | NocFlags::ADD_NOC_RECVD,
+        flags,
     });
     fs.breadcrumb = 5;
     // the trigger (ArmFailSafe(0) / RevokeCommissioning / timer) arrived over the PASE session,
@@ -280,7 +293,7 @@ fn rollback_scene(keep_pase: bool) {
     let r = fs.expire(&mut fabrics, &mut sessions, keep, crate::dm::clusters::net_comm::DummyNetworkAccess, KA, || {}, |_, _| {});
     vassert!(r.is_ok(), "ROLE:expiry-check-succeeds");
     vassert!(!fs.is_armed() && fs.breadcrumb() == 0, "ROLE:expiry-disarms-and-clears-breadcrumb");
-    vassert!(fabrics.get(NonZeroU8::new(1).unwrap()).is_none(), "ROLE:rollback-drops-the-fabric-added-under-the-fail-safe");
+    vassert!(fabrics.get(NonZeroU8::new(1).unwrap()).is_none(), "ROLE:expiry-replaces-the-bound-fabric-by-its-persisted-copy(none: fabric dropped)");
     vassert!(r.ok().flatten() == NonZeroU8::new(1), "ROLE:rollback-reports-the-dropped-fabric");
     let no_case_left = sessions.iter().all(|s| !(s.get_local_fabric_idx() == 1 && matches!(s.get_session_mode(), SessionMode::Case { .. })));
     vassert!(no_case_left, "ROLE:no-CASE-session-of-the-dropped-fabric-survives-rollback");
